@@ -96,29 +96,13 @@ result = np.matmul(left, right)
         ),
         (
             """
-import numpy as np
 for i in range(len(left)):
     for j in range(len(right[0])):
         for k in range(len(right)):
             result[i][j] += left[i][k] * right[k][j]
         """,
             """
-import numpy as np
 result = np.matmul(left, right)
-        """,
-        ),
-        (  # not in a program that does not use numpy
-            """
-for i in range(len(left)):
-    for j in range(len(right[0])):
-        for k in range(len(right)):
-            result[i][j] += left[i][k] * right[k][j]
-        """,
-            """
-for i in range(len(left)):
-    for j in range(len(right[0])):
-        for k in range(len(right)):
-            result[i][j] += left[i][k] * right[k][j]
         """,
         ),
         (
@@ -137,7 +121,6 @@ result = np.matmul(left, right)
         ),
         (
             """
-import numpy as np
 result = [
     [
         sum(
@@ -150,7 +133,6 @@ result = [
 ]
         """,
             """
-import numpy as np
 result = np.matmul(left, right)
         """,
         ),
